@@ -544,6 +544,9 @@ class Interp:
         if isinstance(v, float):
             return T.from_float(v)
         if isinstance(v, complex):
+            r = self.lib._hook("complex_literal")(self, st, v)      # pyvc/models/cplx.py when a contract imports it
+            if r is not NotImplemented:
+                return r
             raise Unsupported("complex literal")
         return v
 
